@@ -1,40 +1,137 @@
-"""C04 Filtering never removes a value that takes part in a solution (PropMC, all 21 types)."""
+"""C04 Propagation and search terminate on every finite problem.
+(a) PropMC: every single filtering call under a deterministic jump budget (infeasible / zero capacities included);
+(b) SolveMC: every problem of U x configurations x {enumerate, minimise, maximise} with the executions-per-pass bound
+    (P+1)*(D+1), a whole-run jump budget, and (c) every variable-heuristic answer checked (valid open decision domain)."""
 import time
 
-from mc import propmc
-from mc.runner import finish
+from mc import budget, propmc, solvecheck as SC, solvemc as S, universe as U
+from mc.runner import Acc, finish
 
 PROP = "C04"
+
+
+class PassBound(budget.BudgetExceeded):
+    pass
+
+
+class Obs(S.Observer):
+    def __init__(self, spec):
+        self.P = max(1, len(spec["cons"]))
+        self.execs = 0
+        self.bound = 1 << 60
+        self.max_ratio = 0.0
+        self.passes = 0
+        self.total_execs = 0
+
+    def on_pass_start(self, a):
+        stack, top = a[10], int(a[13][0])
+        D = int((stack[top, :, 1].astype(int) - stack[top, :, 0].astype(int) + 1).clip(min=0).sum())
+        self.bound = (self.P + 1) * (D + 1)
+        self.execs = 0
+        self.passes += 1
+
+    def on_filter(self, prop_idx, alg, before, after, status):
+        self.execs += 1
+        self.total_execs += 1
+        if self.execs > self.bound:
+            raise PassBound(f"pass executed {self.execs} propagators > (P+1)*(D+1) = {self.bound}")
+
+    def on_pass_end(self, a, status):
+        if self.bound:
+            self.max_ratio = max(self.max_ratio, self.execs / self.bound)
+
+    def on_var_choice(self, dom_idx, a):
+        decision, stack, top = a[1], a[2], int(a[3][0])
+        ok = dom_idx in [int(d) for d in decision] and stack[top, dom_idx, 0] < stack[top, dom_idx, 1] if dom_idx >= 0 else False
+        if not ok:
+            raise S.HeuristicAnswerError(f"variable heuristic answered {dom_idx} in an unbound state "
+                                         f"(domains {stack[top].tolist()})")
+
+
+def layout(spec):
+    return spec["tag"].split(":")[-1] if SC.family_of(spec) == "F1" else spec["tag"].replace(":", "/")
+
+
+def check_spec(acc, spec, tier):
+    fam = SC.family_of(spec)
+    nv = len(spec["vars"])
+    for cfg in S.configs_for(spec, tier, full=fam in ("F3", "F4")):
+        modes = [("enumerate", None)]
+        if fam != "F1" or tier == "thorough":
+            modes += [("min", nv - 1), ("max", 0)]
+        for mode, var in modes:
+            if mode != "enumerate" and U.n_assignments(spec) > 5000:
+                continue
+            obs = Obs(spec)
+            with S.interpose(obs, want=("filter", "pass", "var")):
+                o = S.run(spec, cfg, mode, var)
+            acc.c["runs"] += 1
+            acc.c["passes"] += obs.passes
+            acc.c["propagator_executions"] += obs.total_execs
+            acc.mx("max_jumps_in_a_run", o.jumps)
+            acc.mx("max_pass_executions_permille_of_bound", int(1000 * obs.max_ratio))
+            if obs.passes > 1:
+                acc.c["nt_runs_with_search"] += 1
+            if o.abort in ("budget", "heuristic"):
+                kind = "pass-bound" if "(D+1)" in o.abort_detail else ("jump-budget" if o.abort == "budget" else "heuristic-answer")
+                acc.violation(f"engine:{SC.con_types(spec)}:{layout(spec)}:{kind}",
+                              SC.witness(spec, cfg, mode=mode, var=var, error=o.abort_detail),
+                              "a solver call exceeded its deterministic step bound or a variable heuristic gave no valid open domain")
+            elif o.abort:
+                acc.c["aborted_" + o.abort.split(":")[0]] += 1
+            if not acc.samples and obs.passes > 3:
+                acc.sample(SC.witness(spec, cfg, mode=mode, passes=obs.passes, executions=obs.total_execs, jumps=o.jumps), cap=1)
+
+
+def unit(u):
+    tier, specs = u
+    acc = Acc()
+    for spec in specs:
+        acc.c["problems"] += 1
+        check_spec(acc, spec, tier)
+    return acc
 
 
 def run(tier, seed):
     t0 = time.time()
     acc = propmc.run(PROP, tier, seed)
+    eng, nspecs = SC.run_units(unit, tier, seed)
+    acc.merge(eng)
     calls = acc.c["calls"]
     cov = {
-        "states": calls,
-        "transitions": calls,
-        "traces_validated_against_impl": calls,
-        "evaluations": calls,
-        "distinct_nontrivial": acc.c["nt_any"],
-        "rule": "every (type, arity, params, box) of the contract table (DESIGN 2.7) is one state; one real call each; "
-                "non-trivial = distinct input on which the call pruned a bound, failed, or answered 'entailed'",
+        "states": calls + acc.c["runs"],
+        "transitions": calls + acc.c["propagator_executions"],
+        "traces_validated_against_impl": calls + acc.c["runs"],
+        "evaluations": calls + acc.c["runs"],
+        "distinct_nontrivial": acc.c["nt_any"] + acc.c["nt_runs_with_search"],
+        "rule": "(a) every (type, arity, params, box) of the contract table: one real filtering call under a jump budget of "
+                f"{propmc.JUMP_BUDGET} loop iterations; (b) every (problem of U, configuration, mode): one real solver run with "
+                "the per-pass bound (P+1)*(D+1) on propagator executions, a whole-run jump budget and every variable-heuristic "
+                "answer validated; non-trivial = call that pruned/failed/entailed, or run with more than one propagation pass",
+        "single_calls": calls, "solver_runs": acc.c["runs"], "passes": acc.c["passes"], "problems": nspecs,
         "exhaustive": True,
-        "instances": acc.c["instances"],
-        "bounds": f"tier={tier}: arity<=3-4, 3-5 values per variable, all parameter vectors of the table, all boxes",
+        "bounds": f"tier={tier}: contract table of DESIGN 2.7 and universe U families F1-F4",
     }
     return finish(PROP, tier, seed, "model_checking", acc, cov,
-                  ["relation predicates of mc/contracts.py (written from the documentation)",
-                   "interpreted mode executes the same Python source numba compiles (bound to compiled mode by C15)"],
-                  t0, vacuity={"pruned_types": 15, "failed_types": 15})
+                  ["liveness is decided as bounded liveness: budgets are two orders of magnitude above the largest "
+                   "terminating behaviour observed (maxima reported in coverage.maxima)",
+                   "cost tables within the contract of DESIGN 2.7 (ties included)"],
+                  t0, vacuity={"nt_runs_with_search": 1000, "calls": 100000})
 
 
 def replay(entry):
     rc = 0
     for w in entry["witnesses"]:
         for _ in range(2):
-            acc = propmc.replay_witness(PROP, w)
-            print("replay:", w, "->", {k: v["count"] for k, v in acc.viol.items()} or "no violation")
-            if acc.viol:
-                rc = 1
+            if "type" in w:
+                acc = propmc.replay_witness(PROP, w)
+                bad = bool(acc.viol)
+            else:
+                obs = Obs(w["spec"])
+                with S.interpose(obs, want=("filter", "pass", "var")):
+                    o = S.run(w["spec"], tuple(w["cfg"]), w.get("mode", "enumerate"), w.get("var"))
+                bad = o.abort in ("budget", "heuristic")
+                print("   abort:", o.abort, o.abort_detail)
+            print("replay:", w, "->", "VIOLATION" if bad else "no violation")
+            rc = rc or (1 if bad else 0)
     return rc
